@@ -219,8 +219,45 @@ Definition maskinterp1_spec (ys : list Q) (mask : list bool) (xval : option (lis
   map (fun t : Q * (Q * bool) => if snd (snd t) then interp_spec_at gp (fst t) (fst (snd t)) else fst (snd t))
       (combine xs (combine ys mask)).
 
-(* n-D arrays: the harness cuts the array into its 1-D lines along the chosen axis (pydl numbers
-   axes the IDL way: axis = 0 is the fastest-varying, last numpy axis) and every line is one case. *)
+(* n-D arrays (djs_maskinterp): the array is a flat list (C order) and `lines` lists, for every 1-D line
+   along the chosen axis, the flat indices of its samples (pydl numbers axes the IDL way: axis = 0 is the
+   fastest-varying, last numpy axis; the harness computes the index lists and cross-checks them with numpy).
+   M: ynew = zeros; for each line: ynew[line] = djs_maskinterp1(yval[line], mask[line], xval[line]). *)
+Definition gather {A} (d : A) (flat : list A) (line : list nat) : list A := map (fun k => nth k flat d) line.
+
+Definition set_nth (k : nat) (v : Q) (l : list Q) : list Q :=
+  if (k <? length l)%nat then firstn k l ++ v :: skipn (S k) l else l.
+
+Fixpoint scatter (out : list Q) (line : list nat) (vals : list Q) : list Q :=
+  match line, vals with
+  | k :: line', v :: vals' => scatter (set_nth k v out) line' vals'
+  | _, _ => out
+  end.
+
+Definition line_model (ys : list Q) (mask : list bool) (xval : option (list Q)) (line : list nat) : list Q :=
+  maskinterp1_model (gather 0 ys line) (gather false mask line) (option_map (fun xs => gather 0 xs line) xval).
+Definition line_spec (ys : list Q) (mask : list bool) (xval : option (list Q)) (line : list nat) : list Q :=
+  maskinterp1_spec (gather 0 ys line) (gather false mask line) (option_map (fun xs => gather 0 xs line) xval).
+
+Definition maskinterp_nd_model (ys : list Q) (mask : list bool) (xval : option (list Q)) (lines : list (list nat)) : list Q :=
+  fold_left (fun out line => scatter out line (line_model ys mask xval line)) lines (map (fun _ : Q => 0) ys).
+
+(* S: the output at flat index k is sample p of the 1-D specification applied to the line through k *)
+Fixpoint pos_in (k : nat) (line : list nat) : option nat :=
+  match line with
+  | [] => None
+  | j :: r => if (k =? j)%nat then Some O else option_map S (pos_in k r)
+  end.
+Fixpoint find_line (k : nat) (lines : list (list nat)) : option (list nat * nat) :=
+  match lines with
+  | [] => None
+  | l :: r => match pos_in k l with Some p => Some (l, p) | None => find_line k r end
+  end.
+Definition maskinterp_nd_spec (ys : list Q) (mask : list bool) (xval : option (list Q)) (lines : list (list nat)) : list Q :=
+  map (fun k => match find_line k lines with
+                | Some (l, p) => nth p (line_spec ys mask xval l) 0
+                | None => 0
+                end) (seq 0 (length ys)).
 
 (* ------------------------------------------------------------------ aesthetics *)
 
@@ -387,6 +424,7 @@ Definition qres_close (m : list Q) (r : qres) : bool :=
 Inductive case :=
 | CReject (o : ropts) (pts : list point) (expect : rres)
 | CInterp (ys : list Q) (mask : list bool) (xval : option (list Q)) (expect : qres)
+| CInterpND (ys : list Q) (mask : list bool) (xval : option (list Q)) (lines : list (list nat)) (expect : qres)
 | CAesth (meth : amethod) (flux iv : list Q) (expect : qres)
 | CMedian (xs : list Z) (width : Z) (expect : mres)
 | CMedian2 (rows : list (list Z)) (width : Z) (expect : list (list Z))
@@ -401,6 +439,9 @@ Definition run_case (c : case) : Z :=
   | CReject o pts expect => verdict (rres_eqb (reject_model o pts) expect) (rres_eqb (reject_spec o pts) expect)
   | CInterp ys mask xval expect =>
       verdict (qres_close (maskinterp1_model ys mask xval) expect) (qres_close (maskinterp1_spec ys mask xval) expect)
+  | CInterpND ys mask xval lines expect =>
+      verdict (qres_close (maskinterp_nd_model ys mask xval lines) expect)
+              (qres_close (maskinterp_nd_spec ys mask xval lines) expect)
   | CAesth meth flux iv expect =>
       verdict (qres_close (aesthetics_model meth flux iv) expect) (qres_close (aesthetics_spec meth flux iv) expect)
   | CMedian xs width expect =>
